@@ -247,7 +247,7 @@ func genComp(t *rapid.T) h.Comp {
 var prop = h.Prop[Spec]{
 	ID: "C17", Name: "whitelist",
 	Gen: func(t *rapid.T) Spec {
-		s := Spec{Pair: h.GenPair(t, h.GenOpts{KindChange: true, MaxOld: 7}), Comp: genComp(t)}
+		s := Spec{Pair: h.GenPair(t, h.GenOpts{KindChange: true, MaxOld: 7, ConstCap: 16384}), Comp: genComp(t)}
 		s.Optimize = rapid.Bool().Draw(t, "optimize")
 		if s.Optimize {
 			s.Parts = rapid.IntRange(0, 2).Draw(t, "parts")
